@@ -26,7 +26,7 @@ const TwoByteRune = "é"
 func Concrete(lines []string) []string {
 	out := make([]string, len(lines))
 	for i, l := range lines {
-		out[i] = strings.ReplaceAll(l, Placeholder, TwoByteRune)
+		out[i] = strings.ReplaceAll(strings.ReplaceAll(l, Placeholder, TwoByteRune), "%t", "\t")
 	}
 	return out
 }
@@ -37,10 +37,29 @@ func Abstract(s string) string {
 	s = strings.ReplaceAll(s, TwoByteRune, Placeholder)
 	s = strings.ReplaceAll(s, TwoByteRune[:1], "%1")
 	s = strings.ReplaceAll(s, TwoByteRune[1:], "%2")
+	s = strings.ReplaceAll(s, "\t", "%t")
 	return strings.ReplaceAll(s, "\x01", "%0")
 }
 
-func Content(lines []string) string {
+func Content(lines []string) string { return ContentEOL(lines, false) }
+
+// Phys returns the lines as pint sees them: with CR LF line endings every line keeps its CR.
+func Phys(lines []string, crlf bool) []string {
+	if !crlf {
+		return lines
+	}
+	out := make([]string, len(lines))
+	for i, l := range lines {
+		out[i] = l + "\r"
+	}
+	return out
+}
+
+// ContentEOL: the file as written; crlf = CR LF line endings.
+func ContentEOL(lines []string, crlf bool) string {
+	if crlf {
+		return strings.Join(lines, "\r\n") + "\r\n"
+	}
 	return strings.Join(lines, "\n") + "\n"
 }
 
@@ -96,15 +115,44 @@ type File struct {
 
 // Collapse: every whitespace run (blank, newline position) becomes one blank; ends trimmed.
 func Collapse(s string) string {
-	return strings.Join(strings.FieldsFunc(s, func(r rune) bool { return r == ' ' || r == '\n' }), " ")
+	return strings.Join(strings.FieldsFunc(s, func(r rune) bool { return r == ' ' || r == '\n' || r == '\r' }), " ")
 }
 
 // ReadBack returns the bytes of the file at the given cells; the cell len(line)+1 is the newline.
 // Cells outside the file are counted and rendered as U+0001 so that they never compare equal.
 func ReadBack(lines []string, prs diags.PositionRanges) (string, int) {
+	return ReadBackIn(lines, prs, prs)
+}
+
+func unescape(c byte) (byte, bool) {
+	switch c {
+	case 'n':
+		return '\n', true
+	case 't':
+		return '\t', true
+	case 'r':
+		return '\r', true
+	case '"', '/', '\\', ' ':
+		return c, true
+	}
+	return 0, false
+}
+
+// ReadBackIn reads `cells` (a selection of the cells `all` of one node). A cell that directly follows a
+// backslash which is not itself a cell of the node completes an escape sequence of a double-quoted
+// scalar (`\n`, `\t`, `\"`, `\\`): it is read as the character the escape spells.
+func ReadBackIn(lines []string, cells, all diags.PositionRanges) (string, int) {
+	has := func(line, col int) bool {
+		for _, p := range all {
+			if p.Line == line && p.FirstColumn <= col && col <= p.LastColumn {
+				return true
+			}
+		}
+		return false
+	}
 	var sb strings.Builder
 	out := 0
-	for _, pr := range prs {
+	for _, pr := range cells {
 		for c := pr.FirstColumn; c <= pr.LastColumn; c++ {
 			switch {
 			case pr.Line < 1 || pr.Line > len(lines) || c < 1 || c > len(lines[pr.Line-1])+1:
@@ -113,7 +161,18 @@ func ReadBack(lines []string, prs diags.PositionRanges) (string, int) {
 			case c == len(lines[pr.Line-1])+1:
 				sb.WriteByte('\n')
 			default:
-				sb.WriteByte(lines[pr.Line-1][c-1])
+				line := lines[pr.Line-1]
+				b := line[c-1]
+				n := 0 // backslashes right in front of the cell that are not cells themselves
+				for k := c - 1; k >= 1 && line[k-1] == '\\' && !has(pr.Line, k); k-- {
+					n++
+				}
+				if n%2 == 1 {
+					if u, ok := unescape(b); ok {
+						b = u
+					}
+				}
+				sb.WriteByte(b)
 			}
 		}
 	}
@@ -197,7 +256,10 @@ func parsers() {
 }
 
 // Parse runs the real parser (strict or relaxed) on the lines and projects the result.
-func Parse(lines []string, strict bool) (f File) {
+func Parse(lines []string, strict bool) (f File) { return ParseEOL(lines, strict, false) }
+
+// ParseEOL: crlf = the file is written with CR LF line endings.
+func ParseEOL(lines []string, strict, crlf bool) (f File) {
 	parsers()
 	defer func() {
 		if r := recover(); r != nil {
@@ -210,7 +272,8 @@ func Parse(lines []string, strict bool) (f File) {
 	if strict {
 		p = strictP
 	}
-	pf := p.Parse(strings.NewReader(Content(lines)))
+	pf := p.Parse(strings.NewReader(ContentEOL(lines, crlf)))
+	lines = Phys(lines, crlf)
 	f.Total = pf.TotalLines
 	if pf.Error.Err != nil {
 		f.Err = pf.Error.Err.Error()
@@ -251,7 +314,7 @@ func DiagRange(first, last int, prs diags.PositionRanges) diags.PositionRanges {
 
 // Carets renders the diagnostic with the real diags.InjectDiagnostics and returns (a) the characters
 // printed above the carets and (b) the characters of `cells` that lie on their last line, both collapsed.
-func Carets(file []string, d diags.Diagnostic, cells diags.PositionRanges) (got, want string) {
+func Carets(file []string, crlf bool, d diags.Diagnostic, cells diags.PositionRanges) (got, want string) {
 	defer func() {
 		if r := recover(); r != nil {
 			got = fmt.Sprintf("%%0panic %v", r)
@@ -260,14 +323,15 @@ func Carets(file []string, d diags.Diagnostic, cells diags.PositionRanges) (got,
 	if len(cells) == 0 {
 		return "", ""
 	}
+	phys := Phys(file, crlf)
 	last := cells.Lines().Last
 	var wb strings.Builder
 	// InjectDiagnostics prints one caret per rune, when the first byte of the rune is selected.
 	for _, c := range cells {
-		if c.Line != last || c.Line < 1 || c.Line > len(file) {
+		if c.Line != last || c.Line < 1 || c.Line > len(phys) {
 			continue
 		}
-		line := file[c.Line-1]
+		line := phys[c.Line-1]
 		for col := c.FirstColumn; col <= c.LastColumn; col++ {
 			switch {
 			case col < 1 || col > len(line)+1:
@@ -280,7 +344,7 @@ func Carets(file []string, d diags.Diagnostic, cells diags.PositionRanges) (got,
 		}
 	}
 	want = Abstract(Collapse(wb.String()))
-	text := diags.InjectDiagnostics(Content(file), []diags.Diagnostic{d}, output.None)
+	text := diags.InjectDiagnostics(ContentEOL(file, crlf), []diags.Diagnostic{d}, output.None)
 	rows := strings.Split(text, "\n")
 	digits := len(fmt.Sprint(d.Pos.Lines().Last))
 	prefix := fmt.Sprintf("%*d | ", digits, last)
